@@ -114,6 +114,40 @@ def _rebuilt_before(fn: ast.FunctionDef, uses: list[ast.Call], db: str, panel_is
     return verdict, reason
 
 
+def _assigned(fn: ast.AST):
+    """(target, value, statement) for every store of the function body: the targets of a tuple assignment are paired with the elements of a tuple value;
+    the value is None where it is not one expression (a tuple target with another value, an augmented assignment, a loop or `with` variable)"""
+    def pairs(t, v):
+        if isinstance(t, (ast.Tuple, ast.List)):
+            if isinstance(v, (ast.Tuple, ast.List)) and len(v.elts) == len(t.elts) and not any(isinstance(x, ast.Starred) for x in t.elts + v.elts):
+                for t_, v_ in zip(t.elts, v.elts):
+                    yield from pairs(t_, v_)
+            else:
+                for t_ in t.elts:
+                    yield from pairs(t_.value if isinstance(t_, ast.Starred) else t_, None)
+        else:
+            yield t, v
+    for n in walk_no_nested(fn):
+        if isinstance(n, ast.Assign):
+            for t in n.targets:
+                for t_, v_ in pairs(t, n.value):
+                    yield t_, v_, n
+        elif isinstance(n, ast.AnnAssign) and n.value is not None:
+            yield n.target, n.value, n
+        elif isinstance(n, ast.AugAssign):
+            yield n.target, None, n
+        elif isinstance(n, (ast.For, ast.AsyncFor)):
+            for t_, v_ in pairs(n.target, None):
+                yield t_, None, n
+        elif isinstance(n, (ast.With, ast.AsyncWith)):
+            for it in n.items:
+                if it.optional_vars is not None:
+                    for t_, v_ in pairs(it.optional_vars, None):
+                        yield t_, None, n
+        elif isinstance(n, ast.NamedExpr):
+            yield n.target, n.value, n
+
+
 def run(ctx: Ctx) -> None:
     ctx.positive_table = list(POSITIVE)
     prog = ctx.prog
@@ -168,13 +202,20 @@ self.individualMap = pd.DataFrame(_M).T
             extra = [unparse(v) for v in guard.test.values if unparse(v) != 'self.panelColumn is not None']
             why = f'the map is rebuilt only when `{" and ".join(extra)}`: after the rows have changed (remove, a second panel declaration) the engine receives a map that describes another table'
         # (b) the sorted table is kept in a local: self.data, which the engine reads, is not the table the map describes
-        loc = [n for n in walk_no_nested(b.node) if isinstance(n, ast.Assign) and isinstance(n.targets[0], ast.Name) and isinstance(n.value, ast.Call) and call_name(n.value) == 'sort_values' and unparse(n.value.func.value) == 'self.data']
-        stores = [n for n in walk_no_nested(b.node) if isinstance(n, ast.Assign) and unparse(n.targets[0]) == 'self.data']
-        if why is None and loc and not stores:
-            why = f'the sorted table is kept in the local {loc[0].targets[0].id} and self.data is left as it was: the map gives row positions of the sorted table while the engine reads self.data'
+        asg = list(_assigned(b.node))
+        loc = [(t, n) for t, v, n in asg if isinstance(t, ast.Name) and isinstance(v, ast.Call) and call_name(v) == 'sort_values' and isinstance(v.func, ast.Attribute) and unparse(v.func.value) == 'self.data']
+        # (every store of the attribute counts: also one target of a tuple assignment, an annotated or augmented assignment)
+        stores = [n for t, v, n in asg if unparse(t) == 'self.data']
+        # (the attribute may also be set by other means: setattr, the dictionary of the instance, a method that is handed the local)
+        names = {t.id for t, n in loc}
+        other = [c for c in walk_no_nested(b.node) if isinstance(c, ast.Call) and (call_name(c) in ('setattr', '__setattr__', 'update', '__setitem__') or unparse(c.func).startswith('self.')
+                 and not unparse(c.func).startswith('self.data.')) and any(isinstance(x, ast.Name) and x.id in names for a_ in list(c.args) + [k.value for k in c.keywords] for x in ast.walk(a_))]
+        other += [x for x in ast.walk(b.node) if isinstance(x, ast.Attribute) and x.attr == '__dict__']
+        if why is None and loc and not stores and not other:
+            why = f'the sorted table is kept in the local {loc[0][0].id} and self.data is left as it was: the map gives row positions of the sorted table while the engine reads self.data'
         # (c) sorting / renumbering does not happen on every path to the construction of the map
-        ren = [n for n in walk_no_nested(b.node) if isinstance(n, ast.Assign) and unparse(n.targets[0]) == 'self.data.index']
-        build = [n for n in walk_no_nested(b.node) if isinstance(n, ast.Assign) and unparse(n.targets[0]) == 'self.individualMap']
+        ren = [n for t, v, n in asg if unparse(t) == 'self.data.index']
+        build = [n for t, v, n in asg if unparse(t) == 'self.individualMap']
         if why is None and ren and stores and build and guard is not None and unparse(guard.test) == 'self.panelColumn is not None':
             if not all(cb.dominates(cb.node_of(x), cb.node_of(build[0])) for x in ren + stores[:1]):
                 why = 'sorting and renumbering of self.data are skipped on some paths to the construction of the map: a table that is in order but whose index has gaps (rows removed) is then mapped by row labels, not by positions'
